@@ -768,9 +768,14 @@ def mon_stale_id(case):
             what = ws[2]
         if not what:
             continue
+        answered = False
         for e in entries(obs):
-            if e.startswith(f"{ws[1]}.{what}=") and not e.startswith(f"{ws[1]}.{what}=403,Extension.UnknownExtensionIdentifier"):
-                out.append(f"step {i+1}: {ws[1]}'s {what} carrying the identifier of an earlier generation was answered {e.split('=',1)[1]}, want 403 Extension.UnknownExtensionIdentifier")
+            if e.startswith(f"{ws[1]}.{what}="):
+                answered = True
+                if not e.startswith(f"{ws[1]}.{what}=403,Extension.UnknownExtensionIdentifier"):
+                    out.append(f"step {i+1}: {ws[1]}'s {what} carrying the identifier of an earlier generation was answered {e.split('=',1)[1]}, want 403 Extension.UnknownExtensionIdentifier")
+        if not answered:
+            out.append(f"step {i+1}: {ws[1]}'s {what} carrying the identifier of an earlier generation was not refused at once (the call is left pending: {obs.split('| blocked=')[-1].strip()}), want 403 Extension.UnknownExtensionIdentifier")
     return out
 
 
